@@ -152,7 +152,7 @@ RouteCases ==
 Buck4Knots == { << <<6, 5>>, <<21, 10>>, <<13, 5>> >>, <<R(1), R(2), R(3)>>, << <<1, 2>>, <<3, 2>>, <<5, 2>> >> }
               \cup (IF Deep THEN { << <<3, 4>>, <<5, 4>>, R(2) >>, <<R(1), <<3, 2>>, <<5, 2>> >>, <<R(2), <<5, 2>>, <<7, 2>> >>, << <<4, 5>>, <<11, 10>>, R(3) >> } ELSE {})
 Buck4Piece(kn, x) == IF RLe(x, kn[1]) THEN "bornmayer" ELSE IF RLe(kn[3], x) THEN "dispersion" ELSE IF RLt(x, kn[2]) THEN "quintic" ELSE "cubic"
-Buck4Xs(kn) == {<<n, 4>> : n \in 1..16} \cup {kn[1], kn[2], kn[3]}
+Buck4Xs(kn) == {<<n, 4>> : n \in 0..16} \cup {kn[1], kn[2], kn[3]}     \* from r = 0, where the first range is A
 Buck4Cases ==
   {[form |-> "buck4", p |-> <<a, rho, c, kn[1], kn[2], kn[3]>>, rows |-> Buck4Rows(kn),
     xs |-> SetToSeq({[x |-> x, piece |-> Buck4Piece(kn, x)] : x \in Buck4Xs(kn)})] :
